@@ -46,6 +46,7 @@ type ScConf struct {
 	IdleSilent  [][]int `json:"idle_silent"`
 	IdleActive  [][]int `json:"idle_active"`
 	SkipHbRate  bool   `json:"skip_hb_rate"`
+	RetryInit   bool   `json:"retry_init"` // a first Initialize fails at a last, extra endpoint (busy port); Initialize is then called again on the SAME Node value without it
 	LegacyCtor  bool   `json:"legacy_ctor"` // the node is made by the deprecated NewNode(NodeConf) instead of Node.Initialize
 	ReuseMsgs   bool   `json:"reuse_msgs"` // writer goroutines reuse one message struct, changing it between calls
 	Sid         int    `json:"sid"`
@@ -704,6 +705,27 @@ func (p *player) dialectFor() *dialect.Dialect {
 			}
 		}
 		return &dialect.Dialect{Version: 3, Messages: ms}
+	case "common_rev": // the messages of common in reverse order of declaration (REQUEST_DATA_STREAM before HEARTBEAT)
+		n := len(common.Dialect.Messages)
+		ms := make([]message.Message, n)
+		for i, m := range common.Dialect.Messages {
+			ms[n-1-i] = m
+		}
+		return &dialect.Dialect{Version: 3, Messages: ms}
+	case "common_sr_first": // REQUEST_DATA_STREAM first, HEARTBEAT last
+		var ms []message.Message
+		var hb message.Message
+		for _, m := range common.Dialect.Messages {
+			switch m.GetID() {
+			case 66:
+				ms = append([]message.Message{m}, ms...)
+			case 0:
+				hb = m
+			default:
+				ms = append(ms, m)
+			}
+		}
+		return &dialect.Dialect{Version: 3, Messages: append(ms, hb)}
 	case "fakehb": // id 0 is not the standard heartbeat
 		ms := []message.Message{&MessageUserZero{}}
 		for _, m := range common.Dialect.Messages {
